@@ -33,3 +33,111 @@ pub(crate) fn any_idx(n: usize) -> usize {
     kani::assume(v < n);
     v
 }
+
+use http::header::{
+    AUTHORIZATION, CONNECTION, CONTENT_LENGTH, COOKIE, EXPECT, HOST, LOCATION, TRANSFER_ENCODING,
+};
+use http::HeaderName;
+
+fn lc(b: u8) -> u8 {
+    if b >= b'A' && b <= b'Z' { b + 32 } else { b }
+}
+
+fn eq_ic(a: &[u8], b: &[u8]) -> bool {
+    if a.len() != b.len() {
+        return false;
+    }
+    let mut i = 0;
+    while i < a.len() {
+        if lc(a[i]) != lc(b[i]) {
+            return false;
+        }
+        i += 1;
+    }
+    true
+}
+
+/// Stub for http's `<HeaderName as PartialEq<str>>::eq` (a case-insensitive comparison of
+/// the header's name with `other`). `StandardHeader::as_str()` is not constant-folded by
+/// CBMC, which makes every such comparison unroll a 17-step table-lookup loop on symbolic
+/// bytes. For the names hoot compares against, "name equals `other`" is decided instead by
+/// `HeaderName == HeaderName` against the corresponding standard constant (which folds);
+/// any other string falls back to the byte-wise comparison. Same result as the original.
+pub(crate) fn lean_headername_eq_str(a: &HeaderName, other: &str) -> bool {
+    let b = other.as_bytes();
+    if eq_ic(b, b"host") {
+        return *a == HOST;
+    }
+    if eq_ic(b, b"content-length") {
+        return *a == CONTENT_LENGTH;
+    }
+    if eq_ic(b, b"transfer-encoding") {
+        return *a == TRANSFER_ENCODING;
+    }
+    if eq_ic(b, b"connection") {
+        return *a == CONNECTION;
+    }
+    if eq_ic(b, b"expect") {
+        return *a == EXPECT;
+    }
+    if eq_ic(b, b"location") {
+        return *a == LOCATION;
+    }
+    if eq_ic(b, b"authorization") {
+        return *a == AUTHORIZATION;
+    }
+    if eq_ic(b, b"cookie") {
+        return *a == COOKIE;
+    }
+    eq_ic(a.as_str().as_bytes(), b)
+}
+
+/// Stub for `http::HeaderName::as_str`: `StandardHeader::as_str()` costs >1 s of symbolic
+/// execution per call and its result is not constant-folded by CBMC. The stub decides the
+/// name by `HeaderName == HeaderName` against the standard constants (which folds) and
+/// returns the same lower-case string; custom names used by the harness menus are compared
+/// likewise. A name outside the table is reported (assert) instead of being guessed.
+pub(crate) fn lean_headername_as_str(a: &HeaderName) -> &str {
+    if *a == HOST {
+        return "host";
+    }
+    if *a == CONTENT_LENGTH {
+        return "content-length";
+    }
+    if *a == TRANSFER_ENCODING {
+        return "transfer-encoding";
+    }
+    if *a == CONNECTION {
+        return "connection";
+    }
+    if *a == EXPECT {
+        return "expect";
+    }
+    if *a == LOCATION {
+        return "location";
+    }
+    if *a == AUTHORIZATION {
+        return "authorization";
+    }
+    if *a == COOKIE {
+        return "cookie";
+    }
+    if *a == http::header::ACCEPT {
+        return "accept";
+    }
+    if *a == X_NULL {
+        return "x-null";
+    }
+    if *a == X_A {
+        return "x-a";
+    }
+    if *a == X_KEEP {
+        return "x-keep";
+    }
+    assert!(false, "verif-machinery: header name outside the table modelled by lean_headername_as_str");
+    ""
+}
+
+pub(crate) const X_NULL: HeaderName = HeaderName::from_static("x-null");
+pub(crate) const X_A: HeaderName = HeaderName::from_static("x-a");
+pub(crate) const X_KEEP: HeaderName = HeaderName::from_static("x-keep");
